@@ -28,7 +28,33 @@ type hCall struct {
 	Kind string // equal hash compare clone gostring deepcopy keys sortkeys fmapkeys contains unique min
 	Name string // suffix of the derive function name
 	Arg  string // type expression
+	// InTest: the call sits in p_test.go (in-package test file) instead of p.go
+	InTest bool
 }
+
+// hTestSep separates the p.go part of a rendered program from its p_test.go part (if any).
+const hTestSep = "\n//==== p_test.go ====\n"
+
+// c07Tree turns a rendered program into the files of module "scratch".
+func c07Tree(prefix, src string) map[string]string {
+	files := map[string]string{prefix + "go.mod": pgen.GoMod}
+	if i := strings.Index(src, hTestSep); i >= 0 {
+		files[prefix+"p/p.go"] = src[:i]
+		files[prefix+"p/p_test.go"] = src[i+len(hTestSep):]
+	} else {
+		files[prefix+"p/p.go"] = src
+	}
+	return files
+}
+
+// c07Compiles type-checks the package, with its in-package test file when there is one.
+func (c *Ctx) c07Compiles(dir, src string) bool {
+	if strings.Contains(src, hTestSep) {
+		return c.Go(dir, "vet", "./p").Exit == 0
+	}
+	return c.Go(dir, "build", "./p").Exit == 0
+}
+
 type hProg struct {
 	Types []hType
 	Calls []hCall
@@ -53,36 +79,44 @@ func (p hProg) render() string {
 		}
 		sb.WriteString("}\n\n")
 	}
+	var main, test strings.Builder
 	for i, c := range p.Calls {
 		T := c.Arg
+		sb := &main
+		if c.InTest {
+			sb = &test
+		}
 		switch c.Kind {
 		case "equal":
-			fmt.Fprintf(&sb, "func use%d(a, b %s) bool { return deriveEqual%s(a, b) }\n\n", i, T, c.Name)
+			fmt.Fprintf(sb, "func use%d(a, b %s) bool { return deriveEqual%s(a, b) }\n\n", i, T, c.Name)
 		case "hash":
-			fmt.Fprintf(&sb, "func use%d(a %s) uint64 { return deriveHash%s(a) }\n\n", i, T, c.Name)
+			fmt.Fprintf(sb, "func use%d(a %s) uint64 { return deriveHash%s(a) }\n\n", i, T, c.Name)
 		case "compare":
-			fmt.Fprintf(&sb, "func use%d(a, b %s) int { return deriveCompare%s(a, b) }\n\n", i, T, c.Name)
+			fmt.Fprintf(sb, "func use%d(a, b %s) int { return deriveCompare%s(a, b) }\n\n", i, T, c.Name)
 		case "clone":
-			fmt.Fprintf(&sb, "func use%d(a %s) %s { return deriveClone%s(a) }\n\n", i, T, T, c.Name)
+			fmt.Fprintf(sb, "func use%d(a %s) %s { return deriveClone%s(a) }\n\n", i, T, T, c.Name)
 		case "gostring":
-			fmt.Fprintf(&sb, "func use%d(a %s) string { return deriveGoString%s(a) }\n\n", i, T, c.Name)
+			fmt.Fprintf(sb, "func use%d(a %s) string { return deriveGoString%s(a) }\n\n", i, T, c.Name)
 		case "deepcopy":
-			fmt.Fprintf(&sb, "func use%d(a, b %s) { deriveDeepCopy%s(a, b) }\n\n", i, T, c.Name)
+			fmt.Fprintf(sb, "func use%d(a, b %s) { deriveDeepCopy%s(a, b) }\n\n", i, T, c.Name)
 		case "keys": // Arg is a map type
-			fmt.Fprintf(&sb, "func use%d(m %s) int { return len(deriveKeys%s(m)) }\n\n", i, T, c.Name)
+			fmt.Fprintf(sb, "func use%d(m %s) int { return len(deriveKeys%s(m)) }\n\n", i, T, c.Name)
 		case "sortkeys": // the result type of the inner call flows into the outer call
-			fmt.Fprintf(&sb, "func use%d(m %s) int { return len(deriveSort%s(deriveKeys%s(m))) }\n\n", i, T, c.Name, c.Name)
+			fmt.Fprintf(sb, "func use%d(m %s) int { return len(deriveSort%s(deriveKeys%s(m))) }\n\n", i, T, c.Name, c.Name)
 		case "fmapkeys":
-			fmt.Fprintf(&sb, "func use%d(m %s) int { return len(deriveFmap%s(func(k %s) bool { return true }, deriveKeys%s(m))) }\n\n", i, T, c.Name, mapKeyOf(T), c.Name)
+			fmt.Fprintf(sb, "func use%d(m %s) int { return len(deriveFmap%s(func(k %s) bool { return true }, deriveKeys%s(m))) }\n\n", i, T, c.Name, mapKeyOf(T), c.Name)
 		case "contains":
-			fmt.Fprintf(&sb, "func use%d(l []%s, x %s) bool { return deriveContains%s(l, x) }\n\n", i, T, T, c.Name)
+			fmt.Fprintf(sb, "func use%d(l []%s, x %s) bool { return deriveContains%s(l, x) }\n\n", i, T, T, c.Name)
 		case "unique":
-			fmt.Fprintf(&sb, "func use%d(l []%s) []%s { return deriveUnique%s(l) }\n\n", i, T, T, c.Name)
+			fmt.Fprintf(sb, "func use%d(l []%s) []%s { return deriveUnique%s(l) }\n\n", i, T, T, c.Name)
 		case "min":
-			fmt.Fprintf(&sb, "func use%d(l []%s, d %s) %s { return deriveMin%s(l, d) }\n\n", i, T, T, T, c.Name)
+			fmt.Fprintf(sb, "func use%d(l []%s, d %s) %s { return deriveMin%s(l, d) }\n\n", i, T, T, T, c.Name)
 		}
 	}
-	return sb.String()
+	if test.Len() > 0 {
+		return sb.String() + main.String() + hTestSep + "package p\n\n" + test.String()
+	}
+	return sb.String() + main.String()
 }
 
 func mapKeyOf(t string) string {
@@ -103,6 +137,12 @@ func (p hProg) structArgs() []string {
 }
 
 func randCall(r *rand.Rand, p hProg, seq *int) hCall {
+	c := randCall0(r, p, seq)
+	c.InTest = r.Intn(5) == 0
+	return c
+}
+
+func randCall0(r *rand.Rand, p hProg, seq *int) hCall {
 	*seq++
 	name := fmt.Sprintf("N%d", *seq)
 	switch k := r.Intn(12); {
@@ -114,12 +154,12 @@ func randCall(r *rand.Rand, p hProg, seq *int) hCall {
 				args = append(args, "[]"+t.Name, "map[string]*"+t.Name)
 			}
 		}
-		return hCall{kind, name, args[r.Intn(len(args))]}
+		return hCall{Kind: kind, Name: name, Arg: args[r.Intn(len(args))]}
 	case k < 10:
-		return hCall{[]string{"keys", "sortkeys", "fmapkeys"}[k-7], name, hMapTypes[r.Intn(len(hMapTypes))]}
+		return hCall{Kind: []string{"keys", "sortkeys", "fmapkeys"}[k-7], Name: name, Arg: hMapTypes[r.Intn(len(hMapTypes))]}
 	default:
 		kind := []string{"contains", "unique", "min"}[r.Intn(3)]
-		return hCall{kind, name, p.Types[r.Intn(len(p.Types))].Name}
+		return hCall{Kind: kind, Name: name, Arg: p.Types[r.Intn(len(p.Types))].Name}
 	}
 }
 
@@ -180,7 +220,7 @@ func edit(r *rand.Rand, p hProg, seq *int) (hProg, string) {
 	var q hProg
 	for tries := 0; tries < 20; tries++ {
 		q = p.clone()
-		switch op := r.Intn(13); op {
+		switch op := r.Intn(14); op {
 		case 0: // retype a field
 			t := &q.Types[r.Intn(len(q.Types))]
 			f := &t.Fields[r.Intn(len(t.Fields))]
@@ -298,6 +338,16 @@ func edit(r *rand.Rand, p hProg, seq *int) (hProg, string) {
 				continue
 			}
 			return q2, "retype-nested-arg"
+		case 13: // move a call between p.go and p_test.go
+			if len(q.Calls) == 0 {
+				continue
+			}
+			i := r.Intn(len(q.Calls))
+			q.Calls[i].InTest = !q.Calls[i].InTest
+			if q.Calls[i].InTest {
+				return q, "move-call-to-test-file"
+			}
+			return q, "move-call-from-test-file"
 		case 10: // add a type together with a call on it
 			*seq++
 			t := hType{Name: fmt.Sprintf("A%d", *seq)}
@@ -311,7 +361,7 @@ func edit(r *rand.Rand, p hProg, seq *int) (hProg, string) {
 			q.Types = append(q.Types, t)
 			*seq++
 			kind := []string{"equal", "hash", "compare", "clone", "gostring", "deepcopy"}[r.Intn(6)]
-			q.Calls = append(q.Calls, hCall{kind, fmt.Sprintf("N%d", *seq), "*" + t.Name})
+			q.Calls = append(q.Calls, hCall{Kind: kind, Name: fmt.Sprintf("N%d", *seq), Arg: "*" + t.Name})
 			return q.dedupCalls(), "add-type"
 		case 11: // remove a type no other type refers to, with the calls that name it
 			if len(q.Types) < 2 {
@@ -394,14 +444,14 @@ type scratchRef struct {
 func (c *Ctx) genScratch(src string) scratchRef {
 	dir := c.Env.Dir("c07-ref")
 	defer os.RemoveAll(dir)
-	grun.WriteTree(dir, map[string]string{"go.mod": pgen.GoMod, "p/p.go": src})
+	grun.WriteTree(dir, c07Tree("", src))
 	g := c.Goderive(dir, []string{"./p"})
 	ref := scratchRef{exit: g.Exit, stderr: g.Stderr}
 	if b, err := os.ReadFile(filepath.Join(dir, "p", "derived.gen.go")); err == nil {
 		ref.derived, ref.exists = string(b), true
 	}
 	if g.Exit == 0 {
-		ref.builds = c.Go(dir, "build", "./p").Exit == 0
+		ref.builds = c.c07Compiles(dir, src)
 	}
 	return ref
 }
@@ -465,9 +515,14 @@ func checkC07(c *Ctx) {
 		prog := randProg(r, &seq)
 		prevSrc := prog.render()
 		prevRef := c.genScratch(prevSrc)
-		if prevRef.exit != 0 || !prevRef.builds {
-			c.Run.Inconclusive(fmt.Sprintf("history %d: initial program is not generated cleanly from scratch (left to C01): %s", h, firstLine(prevRef.stderr)))
+		if prevRef.exit != 0 {
+			c.Run.Inconclusive(fmt.Sprintf("history %d: initial program is not generated from scratch (left to C01): %s", h, firstLine(prevRef.stderr)))
 			continue
+		}
+		if !prevRef.builds {
+			// whether the from-scratch output compiles is C01's subject; independence of the prior file is
+			// still decided for this history (bytes against the from-scratch run)
+			c.Run.Count("history-whose-from-scratch-output-does-not-compile", 1)
 		}
 		for s := 0; s < steps; s++ {
 			var cls string
@@ -572,7 +627,7 @@ func checkC07(c *Ctx) {
 		defer os.RemoveAll(dir)
 		dpath := filepath.Join(dir, "p", "derived.gen.go")
 		if cs.Strace > 0 {
-			grun.WriteTree(dir, map[string]string{"go.mod": pgen.GoMod, "p/p.go": cs.PrevSrc})
+			grun.WriteTree(dir, c07Tree("", cs.PrevSrc))
 			args := []string{"-f", "-o", "/dev/null", "-P", dpath, "-e", "trace=write", "-e", fmt.Sprintf("inject=write:signal=KILL:when=%d", cs.Strace), c.Env.Goderive, "./p"}
 			grun.Run("strace", args, grun.Opts{Dir: dir, Env: c.Env.ScratchEnv(), Wall: 2 * time.Minute})
 			b, err := os.ReadFile(dpath)
@@ -580,9 +635,10 @@ func checkC07(c *Ctx) {
 				outs[i].note = "strace run left no derived.gen.go"
 			}
 			outs[i].prior = string(b)
-			os.WriteFile(filepath.Join(dir, "p", "p.go"), []byte(cs.Src), 0o644)
+			os.Remove(filepath.Join(dir, "p", "p_test.go"))
+			grun.WriteTree(dir, c07Tree("", cs.Src))
 		} else {
-			grun.WriteTree(dir, map[string]string{"go.mod": pgen.GoMod, "p/p.go": cs.Src})
+			grun.WriteTree(dir, c07Tree("", cs.Src))
 			if cs.HasPrev {
 				os.WriteFile(dpath, []byte(cs.Prior), 0o644)
 			}
@@ -597,7 +653,7 @@ func checkC07(c *Ctx) {
 			if ref := refs[cs.Src]; ref != nil && ref.builds && ref.derived == outs[i].derived {
 				outs[i].builds = true // byte-identical to the from-scratch output, which compiles
 			} else {
-				outs[i].builds = c.Go(dir, "build", "./p").Exit == 0
+				outs[i].builds = c.c07Compiles(dir, cs.Src)
 			}
 		}
 	})
@@ -625,12 +681,13 @@ func checkC07(c *Ctx) {
 					sym = "partial-signature-trusted"
 				}
 			}
-			files := map[string]string{"tree/go.mod": pgen.GoMod, "tree/p/p.go": cs.Src, "expected.derived.gen.go": ref.derived}
+			files := c07Tree("tree/", cs.Src)
+			files["expected.derived.gen.go"] = ref.derived
 			if cs.HasPrev || cs.Strace > 0 {
 				files["tree/p/derived.gen.go"] = o.prior
 			}
 			c.Run.Violate(report.Violation{Key: cs.Class + "|" + sym, Summary: cs.Desc + ": " + sym, Detail: detail, Files: files,
-				Replay: replayScript("./p || exit 1", "if [ -f \"$HERE/expected.derived.gen.go\" ]; then cmp p/derived.gen.go \"$HERE/expected.derived.gen.go\" || exit 1; fi\ngo build ./p || exit 1\nexit 0")})
+				Replay: replayScript("./p || exit 1", "if [ -f \"$HERE/expected.derived.gen.go\" ]; then cmp p/derived.gen.go \"$HERE/expected.derived.gen.go\" || exit 1; fi\ngo vet ./p || exit 1\nexit 0")})
 		}
 		switch {
 		case o.g.Crash != "":
